@@ -216,7 +216,7 @@ func sortOplogTail(dump string, from int) string {
 	lines := strings.Split(dump, "\n")
 	start := -1
 	for i, l := range lines {
-		if l == "NS "+lungo.Oplog.String() {
+		if strings.HasPrefix(l, "NS "+lungo.Oplog.String()+" ") {
 			start = i + 1
 			break
 		}
